@@ -24,6 +24,9 @@ HERE = os.path.dirname(os.path.abspath(__file__))
 VERIF = os.path.dirname(HERE)
 sys.path.insert(0, HERE)
 REPO = os.environ.get('VERIF_REPO', '/repo')
+# dev runs against seeded changes write their evidence / replay files elsewhere (harness/mutants.py)
+EVID_DIR = os.environ.get('VERIF_EVIDENCE_DIR', os.path.join(VERIF, 'evidence'))
+REPLAY_DIR = os.environ.get('VERIF_REPLAY_DIR', os.path.join(VERIF, 'replays'))
 os.environ.setdefault('AK_PY_VERIF', '1')      # hook guard (see MANIFEST.hooks)
 os.environ.setdefault('PYTHONHASHSEED', '0')
 sys.dont_write_bytecode = True
@@ -92,10 +95,10 @@ class Ctx:
         if len(self.violations) >= 20:
             self.violations.append((what, None))
             return True
-        os.makedirs(os.path.join(VERIF, 'replays'), exist_ok=True)
+        os.makedirs(REPLAY_DIR, exist_ok=True)
         blob = json.dumps({'property': self.pid, 'what': what, 'case': case}, sort_keys=True, default=str)
         name = '%s_%s.json' % (self.pid, hashlib.sha1(blob.encode()).hexdigest()[:12])
-        path = os.path.join(VERIF, 'replays', name)
+        path = os.path.join(REPLAY_DIR, name)
         with open(path, 'w') as f:
             f.write(blob)
         self.violations.append((what, path))
@@ -147,8 +150,8 @@ class Ctx:
             'wall_s': round(time.time() - self.t0, 2),
             'violations': len(self.violations),
         }
-        os.makedirs(os.path.join(VERIF, 'evidence'), exist_ok=True)
-        with open(os.path.join(VERIF, 'evidence', self.pid + '.json'), 'w') as f:
+        os.makedirs(EVID_DIR, exist_ok=True)
+        with open(os.path.join(EVID_DIR, self.pid + '.json'), 'w') as f:
             json.dump(ev, f, indent=1, default=str)
             f.write('\n')
         return ev
